@@ -79,6 +79,8 @@ def run(prop, tier, verdict, module, driver, pspec, classify, consts=None, mc_cf
         for l in open(trr):
             if l.strip():
                 lines_r.setdefault(json.loads(l).get('t'), []).append(l)
+                if '"EnvFailure"' in l:
+                    raise Broken('%s driver: the environment failed during the run, nothing can be concluded: %s' % (driver, l.strip()[:300]))
         for rj in rejr:
             s = by_id_r.get(rj['t'], {})
             verdict.report('%s:%s' % (prop, classify(rj['line'], s)), {'rejected_event': rj['line'], 'previous_event': rj['prev']},
@@ -103,6 +105,8 @@ def run(prop, tier, verdict, module, driver, pspec, classify, consts=None, mc_cf
     for l in open(trfile):
         if l.strip():
             lines_by_t.setdefault(json.loads(l).get('t'), []).append(l)
+            if '"EnvFailure"' in l:
+                raise Broken('%s driver: the environment failed during the run, nothing can be concluded: %s' % (driver, l.strip()[:300]))
     if check_trace_count and len(lines_by_t) != len(scen):
         raise Broken('%s driver recorded %d of %d traces' % (driver, len(lines_by_t), len(scen)))
     for rj in rej:
